@@ -7,60 +7,8 @@ Section Steps.
 Variable H : bytes -> bytes.
 Notation Inv := (Inv H).
 
-(* the precommitted part shrinks to its first m entries *)
-Lemma Inv_shrink s s' m :
-  Inv s ->
-  s_cfg s' = s_cfg s -> s_txlog s' = s_txlog s -> s_clog s' = s_clog s ->
-  s_committed s' = s_committed s -> s_calh s' = s_calh s -> s_ptls s' = s_ptls s ->
-  pb_ok (s_buf s') -> pb_list (s_buf s') = firstn m (pb_list (s_buf s)) ->
-  s_inmem s' = s_committed s + lenN (firstn m (pb_list (s_buf s))) ->
-  s_ialh s' = last_alh (H []) (clogC s ++ map cent (firstn m (pb_list (s_buf s)))) ->
-  Inv s'.
-Proof.
-  intros [] E1 E2 E3 E4 E5 E6 Hok El Ei Ea.
-  constructor; unfold live, clogC in *; rewrite ?E1, ?E2, ?E3, ?E4, ?E5, ?E6, ?El; auto.
-  - rewrite <- (firstn_skipn m (pb_list (s_buf s))) in i_chainB.
-    rewrite map_app, app_assoc in i_chainB. eapply chain_prefix; eauto.
-  - apply ids_from_firstn; auto.
-Qed.
+Ltac sp2 := sp; cbn [upd_ptls s_ptls s_txlog s_cfg s_clog s_committed s_calh s_inmem s_ialh s_buf s_aht s_wait s_tlnf] in *.
 
-Lemma discard_inv s n : Inv s -> Inv (fst (discard s n)).
-Proof.
-  intros HI. unfold discard.
-  destruct (N.eqb_spec n 0) as [E0|N0]; [exact HI|].
-  destruct (N.leb_spec n (s_committed s)) as [L1|L1]; [exact HI|].
-  destruct (N.ltb_spec (s_inmem s) n) as [L2|L2]; [exact HI|].
-  remember (s_inmem s + 1 - n) as cnt eqn:Ecnt.
-  destruct (aht_reset (s_aht s) _) as [a'| |]; [|exact HI|exact HI].
-  sp. pose proof HI as [].
-  assert (Hcnt : pb_count (s_buf s) = lenN (pb_list (s_buf s))) by (symmetry; apply pb_list_length).
-  destruct (pb_recede_ok (s_buf s) cnt i_buf_ok ltac:(lia) ltac:(lia)) as (b' & Eb & Hok' & Hl' & Hs').
-  rewrite Eb. sp.
-  replace (N.to_nat (pb_count (s_buf s) - cnt)) with (N.to_nat (n - 1 - s_committed s)) in Hl' by lia.
-  remember (N.to_nat (n - 1 - s_committed s)) as m eqn:Em.
-  destruct (N.eqb_spec (n - 1) (s_committed s)) as [E1|N1].
-  - (* everything precommitted is discarded *)
-    cbn [fst]. apply (Inv_shrink s _ m HI); sp; auto.
-    + replace m with 0%nat by lia. cbn [firstn]. rewrite lenN_nil. lia.
-    + replace m with 0%nat by lia. cbn [firstn map]. rewrite app_nil_r. exact i_calh.
-  - destruct (N.ltb_spec (s_inmem s - s_committed s - 1) cnt) as [L3|L3]; [lia|].
-    rewrite (pb_read_ahead_spec b' _ Hok'), Hl'.
-    replace (N.to_nat (s_inmem s - s_committed s - 1 - cnt)) with (m - 1)%nat by lia.
-    assert (Hm : (m - 1 < length (pb_list (s_buf s)))%nat).
-    { unfold lenN in *. lia. }
-    destruct (nth_error (pb_list (s_buf s)) (m - 1)) as [pe|] eqn:Hn;
-      [|apply nth_error_None in Hn; lia].
-    rewrite nth_error_firstn' by lia. rewrite Hn.
-    assert (Hid : pe_id pe = n - 1).
-    { rewrite (i_ids _ _ Hn). lia. }
-    destruct (N.eqb_spec (pe_id pe) (n - 1)) as [_|NE]; [|congruence].
-    cbn [fst]. apply (Inv_shrink s _ m HI); sp; auto.
-    + unfold lenN in *. rewrite firstn_length. lia.
-    + rewrite last_alh_app. replace m with (S (m - 1)) by lia.
-      symmetry. apply last_alh_map_firstn. exact Hn.
-Qed.
-
-(* ---- the critical section of precommit ---- *)
 Lemma set_offset_drops s : drops (s_ptls s) (s_txlog s) (s_txlog (tl_set_offset s)).
 Proof.
   sp. rewrite <- (firstn_skipn (N.to_nat (s_tlnf s)) (s_txlog s)) at 1.
@@ -69,6 +17,156 @@ Proof.
   apply drops_app2; [apply Hf|]. destruct (c_prealloc (s_cfg s)); [apply drops_refl|apply Hf].
 Qed.
 
+(* the precommitted part shrinks to its first m entries and the tx log is cut at `kept`, the end of the
+   last entry that stays *)
+Lemma Inv_shrink s s' m kept :
+  Inv s ->
+  s_cfg s' = s_cfg s -> s_clog s' = s_clog s ->
+  s_committed s' = s_committed s -> s_calh s' = s_calh s -> s_ptls s' = kept ->
+  drops kept (s_txlog s) (s_txlog s') ->
+  chain (s_txlog s) 0 (H []) 0 (clogC s ++ map cent (firstn m (pb_list (s_buf s)))) kept ->
+  pb_ok (s_buf s') -> pb_list (s_buf s') = firstn m (pb_list (s_buf s)) ->
+  s_inmem s' = s_committed s + lenN (firstn m (pb_list (s_buf s))) ->
+  s_ialh s' = last_alh (H []) (clogC s ++ map cent (firstn m (pb_list (s_buf s)))) ->
+  Inv s'.
+Proof.
+  intros HI E1 E3 E4 E5 E6 Hd Hch Hok El Ei Ea. pose proof HI as [].
+  constructor; unfold live, clogC in *; rewrite ?E1, ?E3, ?E4, ?E5, ?E6, ?El; auto.
+  - eapply (chain_log_drops H); eauto.
+  - eapply (chain_log_drops H); [|exact Hd].
+    rewrite <- (clogC_all s i_cleq). unfold clogC. eapply (chain_prefix H); eauto.
+  - apply ids_from_firstn; auto.
+  - apply Forall_forall. intros w Hin. eapply drops_in in Hin; [|exact Hd]. eapply Forall_forall in i_wf; eauto.
+Qed.
+
+(* the end of the last live entry of a non-empty chain prefix is a tight end bound for it *)
+Lemma chain_tight log es e hi :
+  chain log 0 (H []) 0 (es ++ [e]) hi -> chain log 0 (H []) 0 (es ++ [e]) (ce_off e + ce_size e) /\ ce_off e + ce_size e <= hi.
+Proof.
+  intros C. destruct (chain_end_exact H _ _ _ _ _ _ _ C) as (w & (R & Es & _) & E & Hex).
+  apply tl_read_some in R. destruct R as [R _]. unfold w_end in *. rewrite R, Es in *. split; auto.
+Qed.
+
+(* DiscardPrecommittedTxsSince: invariant, what happens to the tx log (cut at a bound above every committed
+   record), to the waiters, and to the live chain / AHT *)
+Definition discard_post (s s' : state) (n : N) : Prop :=
+  Inv s' /\
+  (exists B, drops B (s_txlog s) (s_txlog s') /\ chain (s_txlog s) 0 (H []) 0 (clogC s) B) /\
+  s_wait s' = s_wait s /\ s_clog s' = s_clog s /\ s_committed s' = s_committed s /\ s_calh s' = s_calh s /\
+  ((live s' = live s /\ s_inmem s' = s_inmem s /\ s_aht s' = s_aht s) \/
+   (exists m, s_committed s < n /\ n <= s_inmem s /\ m = N.to_nat (n - 1) /\
+              live s' = firstn m (live s) /\ s_inmem s' = n - 1 /\
+              s_aht s' = firstn (N.to_nat (if lenN (s_aht s) <? s_inmem s + 1 - n
+                                           then lenN (s_aht s) + 2 ^ 64 - (s_inmem s + 1 - n)
+                                           else lenN (s_aht s) - (s_inmem s + 1 - n))) (s_aht s))).
+
+Lemma discard_post_refl s n : Inv s -> discard_post s s n.
+Proof.
+  intros HI. pose proof HI as []. split; [exact HI|]. split.
+  - exists (s_ptls s). split; [apply drops_refl|]. unfold live in i_chainB. eapply (chain_prefix H); eauto.
+  - repeat split. left. repeat split.
+Qed.
+
+Lemma discard_full s n : Inv s -> discard_post s (fst (discard s n)) n.
+Proof.
+  intros HI. unfold discard.
+  destruct (N.eqb_spec n 0) as [E0|N0]; [apply discard_post_refl; exact HI|].
+  destruct (N.leb_spec n (s_committed s)) as [L1|L1]; [apply discard_post_refl; exact HI|].
+  destruct (N.ltb_spec (s_inmem s) n) as [L2|L2]; [apply discard_post_refl; exact HI|].
+  remember (s_inmem s + 1 - n) as cnt eqn:Ecnt.
+  destruct (aht_reset (s_aht s) _) as [a'| |] eqn:Ear; [|apply discard_post_refl; exact HI|apply discard_post_refl; exact HI].
+  assert (Ha' : a' = firstn (N.to_nat (if lenN (s_aht s) <? cnt then lenN (s_aht s) + 2 ^ 64 - cnt
+                                       else lenN (s_aht s) - cnt)) (s_aht s)).
+  { unfold aht_reset in Ear. destruct (_ <? _) in Ear; [discriminate|]. injection Ear as <-. reflexivity. }
+  sp. pose proof HI as [].
+  assert (Hcnt : pb_count (s_buf s) = lenN (pb_list (s_buf s))) by (symmetry; apply pb_list_length).
+  assert (HC : lenN (clogC s) = s_committed s) by (apply clogC_len; auto).
+  remember (N.to_nat (n - 1 - s_committed s)) as m eqn:Em.
+  (* the end of the last kept transaction *)
+  match goal with |- context [match ?k with Ok _ => _ | Err _ => _ | Panic => _ end] =>
+    assert (Hkept : exists keptsz, k = Ok keptsz /\ keptsz <= s_ptls s /\
+         chain (s_txlog s) 0 (H []) 0 (clogC s ++ map cent (firstn m (pb_list (s_buf s)))) keptsz) end.
+  { destruct (N.ltb_spec (s_committed s) (n - 1)) as [Lk|Lk].
+    - rewrite (pb_read_ahead_spec _ _ i_buf_ok).
+      destruct (nth_error (pb_list (s_buf s)) (N.to_nat (n - s_committed s - 2))) as [pe|] eqn:Hn;
+        [|apply nth_error_None in Hn; unfold lenN in *; lia].
+      cbn [bind]. exists (pe_off pe + pe_size pe). split; [reflexivity|].
+      assert (Hsplit : firstn m (pb_list (s_buf s)) = firstn (m - 1) (pb_list (s_buf s)) ++ [pe]).
+      { replace m with (S (m - 1)) at 1 by lia. apply firstn_succ_nth'.
+        replace (m - 1)%nat with (N.to_nat (n - s_committed s - 2)) by lia. exact Hn. }
+      unfold live in i_chainB. rewrite <- (firstn_skipn m (pb_list (s_buf s))) in i_chainB.
+      rewrite map_app, app_assoc in i_chainB. apply (chain_prefix H) in i_chainB.
+      rewrite Hsplit, map_app, app_assoc in i_chainB |- *. cbn [map] in *.
+      destruct (chain_tight _ _ _ _ i_chainB) as [Ht Hle]. cbn [cent ce_off ce_size] in *. split; auto.
+    - assert (Hm0 : m = 0%nat) by lia. rewrite Hm0. cbn [firstn map]. rewrite app_nil_r.
+      assert (HchC : chain (s_txlog s) 0 (H []) 0 (clogC s) (s_ptls s)).
+      { unfold live in i_chainB. eapply (chain_prefix H); eauto. }
+      destruct (N.ltb_spec 0 (s_committed s)) as [Lc|Lc].
+      + unfold clog_entry. sp. destruct (N.eqb_spec (s_committed s) 0); [lia|].
+        destruct (nth_error (s_clog s) (N.to_nat (s_committed s - 1))) as [ce|] eqn:Hn;
+          [|apply nth_error_None in Hn; unfold lenN in *; lia].
+        exists (ce_off ce + ce_size ce). split; [reflexivity|].
+        assert (Hsplit : clogC s = firstn (N.to_nat (s_committed s - 1)) (s_clog s) ++ [ce]).
+        { rewrite (clogC_all s i_cleq). rewrite <- (firstn_all (s_clog s)) at 1.
+          replace (length (s_clog s)) with (S (N.to_nat (s_committed s - 1))) by (unfold lenN in i_cleq; lia).
+          apply firstn_succ_nth'. exact Hn. }
+        rewrite Hsplit in HchC |- *. destruct (chain_tight _ _ _ _ HchC) as [Ht Hle]. split; auto.
+      + exists 0. split; [reflexivity|]. split; [lia|].
+        assert (clogC s = []) as ->.
+        { unfold clogC. replace (N.to_nat (s_committed s)) with 0%nat by lia. reflexivity. }
+        cbn [chain]. lia. }
+  destruct Hkept as (keptsz & -> & Hle & Htight).
+  destruct (pb_recede_ok (s_buf s) cnt i_buf_ok ltac:(lia) ltac:(lia)) as (b' & Eb & Hok' & Hl' & Hs').
+  rewrite Eb.
+  replace (N.to_nat (pb_count (s_buf s) - cnt)) with m in Hl' by lia.
+  (* the tx log is cut *)
+  match goal with |- context [upd_buf ?sx b'] => set (s1 := sx) in * end.
+  assert (Hs1 : s_cfg s1 = s_cfg s /\ s_clog s1 = s_clog s /\ s_committed s1 = s_committed s /\
+                s_calh s1 = s_calh s /\ s_inmem s1 = s_inmem s /\ s_ptls s1 = keptsz /\
+                drops keptsz (s_txlog s) (s_txlog s1) /\ s_wait s1 = s_wait s /\ s_aht s1 = a').
+  { unfold s1. destruct (N.ltb_spec keptsz (s_ptls s)) as [Lr|Lr].
+    - repeat split. exact (set_offset_drops (upd_ptls (upd_aht s a') keptsz)).
+    - repeat split; sp2; [lia|apply drops_refl]. }
+  destruct Hs1 as (F1 & F2 & F3 & F4 & F5 & F6 & F7 & F8 & F9).
+  assert (Hlive : forall st, s_clog st = s_clog s -> s_committed st = s_committed s -> s_buf st = b' ->
+                             live st = firstn (N.to_nat (n - 1)) (live s)).
+  { intros st G1 G2 G3. unfold live. unfold clogC at 1. rewrite G1, G2, G3, Hl'. fold (clogC s).
+    replace (N.to_nat (n - 1)) with (length (clogC s) + m)%nat by (unfold lenN in HC; lia).
+    rewrite firstn_app_2, firstn_map. reflexivity. }
+  assert (Hpost : forall st, Inv st -> s_txlog st = s_txlog s1 -> s_wait st = s_wait s -> s_clog st = s_clog s ->
+            s_committed st = s_committed s -> s_calh st = s_calh s -> s_buf st = b' -> s_inmem st = n - 1 ->
+            s_aht st = a' -> discard_post s st n).
+  { intros st G0 G1 G2 G3 G4 G5 G6 G7 G8. split; [exact G0|]. split.
+    - exists keptsz. split; [rewrite G1; exact F7|]. eapply (chain_prefix H); exact Htight.
+    - split; [exact G2|]. split; [exact G3|]. split; [exact G4|]. split; [exact G5|]. right.
+      exists (N.to_nat (n - 1)). split; [lia|]. split; [lia|]. split; [reflexivity|].
+      split; [apply Hlive; auto|]. split; [exact G7|]. rewrite G8, Ha', Ecnt. reflexivity. }
+  sp. rewrite ?F3, ?F4, ?F5.
+  destruct (N.eqb_spec (n - 1) (s_committed s)) as [E1|N1].
+  - cbn [fst]. apply Hpost; sp2; auto; try lia.
+    apply (Inv_shrink s _ m keptsz HI); sp2; auto.
+    + replace m with 0%nat by lia. cbn [firstn]. rewrite lenN_nil. lia.
+    + replace m with 0%nat by lia. cbn [firstn map]. rewrite app_nil_r. rewrite ?F4. exact i_calh.
+  - destruct (N.ltb_spec (s_inmem s - s_committed s - 1) cnt) as [L3|L3]; [lia|].
+    rewrite (pb_read_ahead_spec b' _ Hok'), Hl'.
+    replace (N.to_nat (s_inmem s - s_committed s - 1 - cnt)) with (m - 1)%nat by lia.
+    assert (Hm : (m - 1 < length (pb_list (s_buf s)))%nat) by (unfold lenN in *; lia).
+    destruct (nth_error (pb_list (s_buf s)) (m - 1)) as [pe|] eqn:Hn;
+      [|apply nth_error_None in Hn; lia].
+    rewrite nth_error_firstn' by lia. rewrite Hn.
+    assert (Hid : pe_id pe = n - 1) by (rewrite (i_ids _ _ Hn); lia).
+    destruct (N.eqb_spec (pe_id pe) (n - 1)) as [_|NE]; [|congruence].
+    cbn [fst]. apply Hpost; sp2; auto.
+    apply (Inv_shrink s _ m keptsz HI); sp2; auto.
+    + unfold lenN in *. rewrite firstn_length. lia.
+    + rewrite last_alh_app. replace m with (S (m - 1)) by lia.
+      symmetry. apply last_alh_map_firstn. exact Hn.
+Qed.
+
+Lemma discard_inv s n : Inv s -> Inv (fst (discard s n)).
+Proof. intros HI. apply (discard_full s n HI). Qed.
+
+(* ---- the critical section of precommit ---- *)
 Lemma Inv_set_offset s : Inv s -> Inv (tl_set_offset s).
 Proof.
   intros []. pose proof (set_offset_drops s) as Hd.
